@@ -49,7 +49,7 @@ func TestC10(t *testing.T) {
 	defer rec.Flush(t)
 
 	fail := func(c CellCase, err error) {
-		p := rec.Violation("cell", c, "", err)
+		p := cellViolation(rec, c, err)
 		t.Errorf("C10 violation: %v (replay %s)", err, p)
 	}
 
@@ -136,7 +136,7 @@ func TestC10(t *testing.T) {
 		rec.Case(true, c, cls)
 		rec.Sample(c)
 		if err := checkCell(c); err != nil {
-			rec.Violation("cell", c, "", err)
+			cellViolation(rec, c, err)
 			rt.Fatalf("C10 violation: %v", err)
 		}
 	})
